@@ -428,6 +428,10 @@ def shift_of(t, var_desc):
     return {"has_lit": "CondHasLit", "is_lit": "CondIsLit"}[kind], (k if new[1] == "add" else -k), old
 
 
+# normalised hash (vlib.py2v.norm_hash) of util.soundex with the replacement table and the for-else branch blanked out
+SOUNDEX_SHAPE = "271937a0a520"
+
+
 def when_only(t):
     """('call','when',[cond, value])  ->  (cond, value)  or None"""
     if t[0] == "call" and t[1] == "when" and len(t[2]) == 2:
@@ -485,10 +489,12 @@ def generate(repo: str):
         rebase = f"(Rebase ({d.get('size', 0)}) ({d.get('start', 0)}) ({d.get(1, 0)}) ({below}))"
     need(t[0] == "anon" and t[1] == "LIST_SLICE" and len(t[2]) == 3 and is_param(t[2][0], "x"),
          f"slice: not LIST_SLICE(x, lo, hi): {t}")
-    sv = {"start": first_term, "length": None} if first_term is not None else {"start": None, "length": None}
+    # with a re-based first index the bounds must be written in terms of IT (the raw `start` is not accepted in its place)
+    v1 = "first" if first_term is not None else "start"
+    sv = {v1: first_term, "length": None}
     lo = affine(t[2][1], sv)
     hi = affine(t[2][2], sv)
-    fact("slice", "slice_cfg", f"mkSlice {aff3(lo, 'start', 'length')} {aff3(hi, 'start', 'length')}",
+    fact("slice", "slice_cfg", f"mkSlice {aff3(lo, v1, 'length')} {aff3(hi, v1, 'length')}",
          ["slice", "slice_as_list_slice"], "LIST_SLICE(x, lo, hi) as affine forms (first index, length, const)")
     fact("slice_rebase", "slice_rebase", rebase, ["slice_as_list_slice"],
          "first index = CASE WHEN start < 0 THEN a*size + b*start + k ELSE start END; [] when it is < below")
@@ -840,6 +846,62 @@ def generate(repo: str):
         need(is_param(st_, "pos"), f"substr: start is neither pos nor a re-mapping of pos: {st_}")
     fact("substr_remap", "option (Z * Z)", remap, ["substr"], "CASE WHEN pos = k0 THEN k1 ELSE pos END")
 
+    # ---- soundex (pure Python UDF in base/util.py, registered as SOUNDEX by duckdb/session.py) ------------------------
+    util_tree, util_src = py2v.load(os.path.join(repo, "sqlframe/base/util.py"))
+    sx = [n for n in util_tree.body if isinstance(n, ast.FunctionDef) and n.name == "soundex"]
+    need(len(sx) == 1, "util.soundex not found")
+    sx = sx[0]
+    I.used["util.soundex"] = ("util.py", py2v.src_hash(sx, util_src))
+    import copy
+    fn = copy.deepcopy(sx)
+    table, transparent = [None], [None]
+    for n in ast.walk(fn):
+        if isinstance(n, ast.Assign) and len(n.targets) == 1 and isinstance(n.targets[0], ast.Name) and n.targets[0].id == "replacements":
+            v = n.value
+            need(isinstance(v, (ast.Tuple, ast.List)) and all(isinstance(e, ast.Tuple) and len(e.elts) == 2 and all(isinstance(c, ast.Constant)
+                 and isinstance(c.value, str) for c in e.elts) for e in v.elts), "soundex: replacements is not a literal table of (letters, digit)")
+            table[0] = [(e.elts[0].value, e.elts[1].value) for e in v.elts]
+            n.value = ast.Constant(value="<TABLE>")
+    # the inner for-else over the table, inside the loop over the letters: its else-branch decides what an uncoded letter does
+    outer = [n for n in ast.walk(fn) if isinstance(n, ast.For) and isinstance(n.target, ast.Name) and n.target.id == "letter"]
+    need(len(outer) == 1, "soundex: loop over the letters not found")
+    inner = [n for n in outer[0].body if isinstance(n, ast.For) and n.orelse]
+    need(len(inner) == 1, "soundex: for-else over the replacement table not found")
+    oe = inner[0].orelse
+    if len(oe) == 1 and ast.unparse(oe[0]) == "last = None":
+        transparent[0] = []
+    else:
+        need(len(oe) == 1 and isinstance(oe[0], ast.If) and not oe[0].orelse and len(oe[0].body) == 1 and ast.unparse(oe[0].body[0]) == "last = None",
+             "soundex: else-branch is neither `last = None` nor `if <letter is not one of ..>: last = None`")
+        tst = oe[0].test
+        conds = tst.values if isinstance(tst, ast.BoolOp) and isinstance(tst.op, ast.And) else [tst]
+        letters = []
+        for c in conds:
+            if isinstance(c, ast.Compare) and len(c.ops) == 1 and isinstance(c.left, ast.Name) and c.left.id == "letter" and isinstance(c.comparators[0], ast.Constant):
+                if isinstance(c.ops[0], ast.NotEq) and isinstance(c.comparators[0].value, str) and len(c.comparators[0].value) == 1:
+                    letters.append(c.comparators[0].value)
+                    continue
+                if isinstance(c.ops[0], ast.NotIn) and isinstance(c.comparators[0].value, str):
+                    letters += list(c.comparators[0].value)
+                    continue
+            raise Untranslatable(f"soundex: condition not understood: {ast.unparse(c)}")
+        transparent[0] = letters
+    inner[0].orelse = [ast.Expr(value=ast.Constant(value="<ELSE>"))]
+    need(table[0] is not None, "soundex: replacements table not found")
+    shape = py2v.norm_hash(fn)
+    need(shape == SOUNDEX_SHAPE, f"soundex: the body around the table and the else-branch changed (normalised hash {shape}, expected {SOUNDEX_SHAPE})")
+    for letters, digit in table[0]:
+        need(letters.isascii() and letters.isalpha() and letters == letters.upper() and len(digit) == 1 and digit.isdigit(), "soundex: table entry not upper-case letters -> digit")
+    need(all(len(x) == 1 and x.isascii() for x in transparent[0]), "soundex: transparent letters not single ASCII characters")
+    sess = open(os.path.join(repo, "sqlframe/duckdb/session.py")).read()
+    need('create_function("SOUNDEX", lambda x: soundex(x)' in sess and "from sqlframe.base.util import soundex" in sess,
+         "duckdb/session.py no longer registers util.soundex as SOUNDEX")
+    t = I.function("soundex")
+    need(t[0] == "anon" and t[1] == "SOUNDEX" and len(t[2]) == 1 and is_param(t[2][0], "col"), f"functions.soundex is not SOUNDEX(col): {t}")
+    tbl = "[" + "; ".join("([" + "; ".join(str(ord(ch)) for ch in letters) + f"], {ord(digit)})" for letters, digit in table[0]) + "]"
+    fact("soundex", "soundex_cfg", f"mkSoundex {tbl} [" + "; ".join(str(ord(x)) for x in transparent[0]) + "]", ["soundex", "util.soundex"],
+         "replacement table and the letters skipped without forgetting the last code; the rest of the body is pinned by its normalised hash")
+
     # ---- concat ---------------------------------------------------------------------------------------------------
     st = I.duck_statements("concat")
     src = [ast.unparse(x) for x in st]
@@ -884,7 +946,7 @@ def generate(repo: str):
     L.append("Definition c17_facts : facts := mkFacts c17_slice c17_element_at c17_try_element_at c17_getitem "
              "c17_array_min_idx c17_array_max_idx c17_pos c17_fact c17_rint c17_dow c17_overlay c17_overlap c17_union "
              "c17_remove c17_nanvl c17_seq_default c17_date_add c17_date_sub c17_lev c17_unix_millis "
-             "c17_slice_rebase c17_fact_guard c17_union_guard c17_overlay_glue c17_concat_glue c17_append_guard c17_left_floor c17_right_floor c17_substr_remap.")
+             "c17_slice_rebase c17_fact_guard c17_union_guard c17_overlay_glue c17_concat_glue c17_append_guard c17_left_floor c17_right_floor c17_substr_remap c17_soundex.")
     return "\n".join(L) + "\n", facts
 
 
